@@ -4,6 +4,7 @@ import (
 	"fmt"
 	"sort"
 	"strings"
+	"sync/atomic"
 	"time"
 
 	"github.com/openebs/jiva/types"
@@ -153,7 +154,16 @@ func (w *World) MonitorFail(f *Fake, kill bool) {
 	}
 	f.mu.Unlock()
 	if c != nil {
-		c.InjectMonitor(fmt.Errorf("Ping timeout"))
+		if w.R.Bool() {
+			c.InjectMonitor(fmt.Errorf("Ping timeout"))
+		} else {
+			// a dropped connection: the rpc client notifies the close channel, the monitor then reports nil
+			atomic.AddInt32(&c.ErrInjected, 1)
+			select {
+			case c.closeChan <- struct{}{}:
+			default:
+			}
+		}
 	}
 }
 
@@ -457,7 +467,7 @@ func (w *World) IO(kind string, off, length int64, faults map[*Fake]Outcome) {
 		if faults[f].Fails() {
 			for _, r := range post.Replicas {
 				if r.Address == a {
-					w.Fail("C04", "failed-reader-still-attached", fmt.Sprintf("%s failed the read but is still attached as %s", a, r.Mode))
+					w.FailAny([]string{"C04", "C05"}, "failed-reader-still-attached", fmt.Sprintf("%s failed the read but is still attached as %s", a, r.Mode))
 					return
 				}
 			}
